@@ -313,7 +313,8 @@ class C20:
                     tags={'k': 'voxel'})
             else:
                 bad = rng.choice(['nonsphere', 'negr', 'center2', 'centers',
-                                  'center33', 'center0d'])
+                                  'center33', 'center0d', 'layered_negt',
+                                  'layered_center2'])
                 if bad == 'nonsphere':
                     b.emit('spheres', {'members': [
                         {'n': 1.5, 'r': 0.5, 'center': [0, 0, 0]},
@@ -327,6 +328,17 @@ class C20:
                 elif bad == 'center2':
                     b.emit('sphere', {'n': 1.5, 'r': 0.5, 'center': [1, 2]},
                            tags={'k': 'reject', 'reject': True})
+                elif bad == 'layered_negt':
+                    # the layered description: a negative thickness gives
+                    # negative radii
+                    b.emit('layered_sphere', {
+                        'n': [1.3, 1.5], 't': [-rfloat(rng, 0.1, 2), 0.5],
+                        'center': [0, 0, 0]},
+                        tags={'k': 'reject', 'reject': True})
+                elif bad == 'layered_center2':
+                    b.emit('layered_sphere', {
+                        'n': [1.3, 1.5], 't': [0.5, 0.5], 'center': [1, 2]},
+                        tags={'k': 'reject', 'reject': True})
                 elif bad == 'center33':
                     # three numbers per coordinate: not a point
                     b.emit('sphere', {'n': 1.5, 'r': 0.5, 'center': {
